@@ -113,3 +113,6 @@ func isDeadlock(dump string) bool {
 	}
 	return relevant > 0
 }
+
+// IsDeadlockDump applies the dead-lock classification to a SIGQUIT goroutine dump of a command.
+func IsDeadlockDump(dump string) bool { return isDeadlock(dump) }
